@@ -56,7 +56,7 @@ def run(ctx):
     rng = ctx.sub('u')
     cases, meta = [], []
     vals = [-3, -2, -1, -0.5, 0.25, 0.5, 1, 2, 4, 0.1, -0.7]
-    for it in range(40 if not ctx.thorough else 300):
+    for it in range(100 if not ctx.thorough else 300):
         n = rng.choice([2, 3, 4, 6, 8, 9])
         D = rand_sparse(rng, n, vals)
         base = dict(dense=D.tolist())
@@ -260,7 +260,7 @@ def oracle(ctx, U, LA, D, rng, base):
 
 def spectral(ctx, LA):
     rng = ctx.sub('spec')
-    for it in range(12 if not ctx.thorough else 80):
+    for it in range(30 if not ctx.thorough else 80):
         n = rng.choice([5, 8, 12, 20])
         Hh = gen.poisson_like(rng, n)
         cplx = rng.random() < 0.4
@@ -287,6 +287,11 @@ def spectral(ctx, LA):
             if rng.random() < 0.3:
                 M = M.astype(complex) * np.exp(0.3j) if not sym else M
             true = np.linalg.cond(M)
+            if not np.isfinite(true) or true > 1e6:
+                # the random perturbation made the matrix (numerically) singular: its condition number is not a
+                # quantity any estimate can match to 1e-6
+                ctx.count('condest-skipped-singular')
+                continue
             np.random.seed(ctx.seed + it)
             with warnings.catch_warnings():
                 warnings.simplefilter('ignore')
